@@ -459,6 +459,9 @@ func c11Root(rng *rand.Rand, kind string, n int) (qframe.QFrame, *c11Env, error)
 	env.sharedClause = qframe.Or(
 		qframe.And(qframe.Filter{Column: env.cols[model.KInt][0], Comparator: "in", Arg: env.inInts}, qframe.Filter{Column: env.cols[model.KString][0], Comparator: "in", Arg: env.inStrings, Inverse: true}),
 		qframe.Filter{Column: env.cols[model.KFloat][0], Comparator: "in", Arg: env.inFloats},
+		qframe.Filter{Column: env.cols[model.KInt][0], Comparator: ">", Arg: types.ColumnName(env.cols[model.KFloat][1])},
+		qframe.Filter{Column: env.cols[model.KFloat][0], Comparator: "<", Arg: types.ColumnName(env.cols[model.KInt][1]), Inverse: true},
+		qframe.Filter{Column: env.cols[model.KInt][1], Comparator: "=", Arg: types.ColumnName(env.cols[model.KInt][0])},
 		qframe.Not(qframe.Filter{Column: env.cols[model.KInt][1], Comparator: "in", Arg: env.inInts}))
 	return qf, env, qf.Err
 }
